@@ -85,7 +85,7 @@ def judge_consumer(sname, fe, tok, run):
 
 
 # -- producer ---------------------------------------------------------------------------------------------
-KINDS = ['plain', 'params', 'params-empty', 'signed-digest', 'signed-digest-noparam', 'signed-hmac']
+KINDS = ['plain', 'params', 'params-empty', 'signed-digest', 'signed-digest-noparam', 'signed-hmac', 'siginfo-only']
 DIGESTS = ['ok', 'flip', 'flip-param', 'absent']
 
 
@@ -103,6 +103,18 @@ def make_incoming(kind, digest):
         w = enc.make_interest('/p/x', ip, None, DigestSha256Signer(for_interest=True))
     elif kind == 'signed-hmac':
         w = enc.make_interest('/p/x', ip, b'abc', HmacSha256Signer('/k', b'key'))
+    elif kind == 'siginfo-only':
+        # InterestSignatureInfo present, InterestSignatureValue missing; the parameters digest is correct for what is there
+        w0 = bytes(enc.make_interest('/p/x', ip, b'abc', DigestSha256Signer(for_interest=True)))
+        top = ts.read_single(w0)
+        ch = top.children()
+        name_el = ch[0]
+        app_el = [c for c in ch if c.typ == 0x24][0]
+        tail = b''.join(c.wire for c in ch if c.start >= app_el.start and c.typ != 0x2e)
+        import hashlib
+        dg = hashlib.sha256(tail).digest()
+        newname = ts.tlv(7, b''.join(c.wire if c.typ != 2 else ts.tlv(2, dg) for c in name_el.children()))
+        w = ts.tlv(5, newname + w0[name_el.end:app_el.start] + tail)
     w = bytearray(w)
     if digest == 'ok':
         return bytes(w)
@@ -141,6 +153,11 @@ def producer_cases():
         for kind in ('params', 'signed-digest'):
             for first, second in ((acc_tok, rej_tok), (rej_tok, acc_tok)):
                 yield {'fe': fe, 'kind': kind, 'digest': 'ok', 'validator': first, 'vlat': 0, 'dup_validator': second}
+    # legacy: the validator in force for a route without one of its own is app.int_validator, whenever it was assigned
+    for when in ('before', 'after'):
+        for kind in ('plain', 'params', 'signed-digest', 'signed-hmac', 'siginfo-only'):
+            for val in LEGACY_TOKENS:
+                yield {'fe': 'legacy', 'kind': kind, 'digest': 'ok', 'validator': val, 'vlat': 0, 'app_validator': when}
     yield {'fe': 'legacy', 'kind': 'signed-digest', 'digest': 'ok', 'validator': 'none', 'vlat': 0, 'break_sig': True}
     yield {'fe': 'v2', 'kind': 'signed-digest', 'digest': 'ok', 'validator': 'PASS', 'vlat': 0, 'break_sig': True}
 
@@ -187,10 +204,15 @@ def run_producer(case):
                         await asyncio.sleep(case['vlat'] / 1000)
                     log.append(('vdone', loop.us))
                     return value
+        when = case.get('app_validator')
+        if when == 'before':
+            app.int_validator = validator
         if fe == 'v2':
             app.attach_handler('/p', lambda name, ap, reply, ctx: log.append(('handler', loop.us)), validator)
         else:
-            app.set_interest_filter('/p', lambda name, param, ap: log.append(('handler', loop.us)), validator)
+            app.set_interest_filter('/p', lambda name, param, ap: log.append(('handler', loop.us)), None if when else validator)
+        if when == 'after':
+            app.int_validator = validator
         if case.get('dup_validator'):
             v2val = c03.verdict_value(case['dup_validator'], fe)
             if fe == 'v2':
@@ -218,7 +240,8 @@ def run_producer(case):
     called = kinds.count('handler')
     consulted = 'vstart' in kinds
     plain = case['kind'] == 'plain'
-    signed = case['kind'].startswith('signed')
+    signed = case['kind'].startswith('signed') or case['kind'] == 'siginfo-only'
+    soft = case['kind'] == 'siginfo-only'      # signature information without a value: dropping it outright is as good as rejecting it
     digest_ok = case['digest'] == 'ok'
     # expected
     if plain:
@@ -241,7 +264,7 @@ def run_producer(case):
     tag = f"{fe}|{case['kind']}|digest={case['digest']}|validator={tok}"
     if called > 1:
         viol.append((f'C05|producer|{fe}|handler-called-twice', f'{tag}: handler called {called} times'))
-    elif bool(called) != exp_called:
+    elif bool(called) != exp_called and not (soft and not called):
         why = 'reached the handler' if called else 'was dropped'
         viol.append((f"C05|producer|{fe}|{case['kind']}|digest={case['digest']}|validator={'none' if tok == 'none' else ('accepting' if c03.verdict_accepts(tok, fe) else 'rejecting')}|{'delivered' if called else 'dropped'}",
                      f'{tag}: Interest {why}; expected handler called = {exp_called}'))
